@@ -786,7 +786,9 @@ def rand_history(r, base):
     cand = list(nodes(eff))
     for _ in range(r.range(1, 3)):
         path, n = r.choice(cand)
-        if n[0] == "rv" and n[1] and len(n[1]) < 6 and r.chance(1, 4) and not (path and False):
+        parent = dict(cand).get(tuple(path[:-1])) if path else None
+        in_se = parent is not None and parent[0] == "cmp" and len(parent) > 2      # the R^n part of a real SE(2)/SE(3)
+        if n[0] == "rv" and n[1] and len(n[1]) < 6 and r.chance(1, 4) and not in_se:
             lo = r.choice([0.0, -2.0, 5.0])
             ops.append(("adddim", path, lo, lo + r.choice([1.0, 10.0, 0.5])))
         elif n[0] == "rv" and n[1]:
@@ -1010,19 +1012,25 @@ def laws(sp, cl, ext, tr, res, count=None, scale=1.0):
 
 
 # ------------------------------------------------------------------------------- running
-def run_bin_retry(ck, binary, script, tries=3):
-    """helper runs (attribution, minimal scripts, weighted sums) are repeated when the process itself failed — no output
-    or a non-zero exit although the script is short and well-formed — so that a transient failure of a loaded machine
-    (fork / sanitizer start-up) cannot turn a known finding into an alarm.  A reproducible crash still comes back."""
+def run_bin_retry(ck, binary, script, tries=6):
+    """every run of the harness / driver is repeated (with a growing pause) when the PROCESS failed — no output, fewer
+    lines than ops, or a non-zero exit.  Reason: the harness links the shared libompl.so of the build cache, which another
+    check may be re-linking in place after a commit to /repo; for those seconds the loader fails and a known finding would
+    turn into `culprit=compound` or a `crash` report.  A reproducible crash (sanitizer abort, exception) fails every
+    time and still comes back as it is.  Only the failure path waits; no verdict depends on timing."""
+    import time
     o, rc, err = None, None, ""
-    for _ in range(tries):
+    for k in range(tries):
         o, rc, err = ck.run_bin(binary, script)
         if o is not None and rc == 0 and len(o) >= len(script) - 1:
             break
+        if k + 1 < tries:
+            ck.count("process-retry")
+            time.sleep(min(30, 2 * (2 ** k)))
     return o, rc, err
 
 
-def run_script_pair(ck, hbin, script, with_model=True, retry=False):
+def run_script_pair(ck, hbin, script, with_model=True, retry=True):
     """one script through the harness and (with the harness's recorded answers fed back) the model driver"""
     impl, rc, err = run_bin_retry(ck, hbin, script) if retry else ck.run_bin(hbin, script)
     impl = impl or []
@@ -1462,7 +1470,7 @@ def run(ck):
     for name, sp, tr in corpus():
         jobs.append(([(sp, [tr])], "corpus"))
     r = ck.rng.fork("spaces")
-    nt_leaf, nt_cmp, n_cmp, nt_car = (60, 36, 110, 36) if quick else (300, 120, 600, 200)
+    nt_leaf, nt_cmp, n_cmp, nt_car = (48, 30, 90, 30) if quick else (240, 100, 450, 120)
     for i, sp in enumerate(shipped_spaces(r)):
         jobs.append(([(sp, make_triples(ck.rng.fork("leaf%d" % i), sp, nt_leaf, state))], "shipped"))
     batch = []
@@ -1477,9 +1485,9 @@ def run(ck):
             batch = []
     if batch:
         jobs.append((batch, "compound"))
-    hs = history_spaces(ck.rng.fork("hist"), 24 if quick else 250)
+    hs = history_spaces(ck.rng.fork("hist"), 18 if quick else 150)
     for i in range(0, len(hs), 4):
-        jobs.append(([(sp, make_triples(ck.rng.fork("h%d" % (i + j)), sp, 12 if quick else 40, state))
+        jobs.append(([(sp, make_triples(ck.rng.fork("h%d" % (i + j)), sp, 12 if quick else 30, state))
                       for j, sp in enumerate(hs[i:i + 4])], "history"))
     for i, sp in enumerate(car_spaces(ck.rng.fork("cars"))):
         jobs.append(([(sp, make_triples(ck.rng.fork("car%d" % i), sp, nt_car, state))], "dubins-reedsshepp"))
